@@ -274,6 +274,15 @@ func (p *Parser) parseArg(info *pOpcodeInfo, curObj *Object, argType pArgType) (
 	case pArgTypeByteData, pArgTypeWordData, pArgTypeDwordData, pArgTypeQwordData, pArgTypeString, pArgTypeNameString:
 		return p.parseSimpleArg(argType)
 	case pArgTypeByteList:
+		// A nested package that ran past the end of the package it lives
+		// in leaves the offset behind the restored package end: there is
+		// no byte list, and the unsigned length below would wrap around
+		// (a slice header of ~4G bytes, and the offset would move back
+		// so that bytes already consumed are parsed a second time).
+		if p.r.Offset() > p.r.pkgEnd {
+			return nil, parseResultFailed
+		}
+
 		argObj := p.objTree.newObject(pOpIntByteList, p.tableHandle)
 		p.parseByteList(argObj, p.r.pkgEnd-p.r.Offset())
 		return argObj, parseResultOk
